@@ -22,6 +22,7 @@ PROFILE = {
     "attempt_timeout": 0.1,
     "multi_call": (1, 2),
     "offgrid_delays": 0.1,
+    "extra_etypes": ["Coded:ECONNRESET", "Coded:card_declined", "Coded:503", "Coded:"],
 }
 NORETRY = ["Policy.noretry.execute", "AsyncPolicy.noretry.execute"]
 
